@@ -374,6 +374,23 @@ pub fn run(ctx: &Ctx) -> Report {
         full_menu.clone(),
         f6.clone(),
     ));
+    xs.push((
+        "20 KB of trigger words and filler (single calls of 4096 / 8191 / 8192 / 8193 bytes and of everything)".into(),
+        {
+            let mut v = vec![];
+            let mut k = 0usize;
+            while v.len() < 20_000 {
+                v.extend(corpus::W[k % 7]);
+                v.extend(corpus::repeat(&corpus::F, 1 + k % 5));
+                k += 1;
+            }
+            v.truncate(20_000);
+            v
+        },
+        0,
+        vec![4096, 8191, 8192, 8193, usize::MAX],
+        vec![CForm::Slice, CForm::Iter, CForm::IterInexact, CForm::AddSlice],
+    ));
     xs.push(("W3^34 (borders inside trigger windows)".into(), corpus::repeat(&corpus::W[3], if thorough { 70 } else { 34 }), 0, if thorough { full_menu.clone() } else { small_menu.clone() }, f3.clone()));
     // dense head, then a tail without further pieces: the slice form knows the total size up front, the
     // byte forms learn it as bytes arrive (elimination timing differs); level 1 has exactly 31 / 32 pieces
